@@ -106,7 +106,7 @@ func mapToLset(m map[string]string) labels.Labels {
 // without the values x|y and .*, which decide like .+ and like "always" on external values {x,y}),
 // each together with c!="" - a query always carries a matcher that no external label can consume (the
 // metric name in practice); a TSDB store rejects a query without one instead of answering it. Plus two
-// queries on c alone. Thorough adds unordered pairs of matchers on a,b.
+// queries on c alone. Thorough adds unordered pairs of matchers on a,b over the quick values.
 func selQueries(r *vlib.R) [][]MatcherSpec {
 	inner := MatcherSpec{"c", 1, ""}
 	var ms []MatcherSpec
@@ -122,9 +122,12 @@ func selQueries(r *vlib.R) [][]MatcherSpec {
 	}
 	out = append(out, []MatcherSpec{{"c", 0, "x"}}, []MatcherSpec{inner})
 	if r.Thorough() {
+		plain := func(m MatcherSpec) bool { return m.V != "x|y" && m.V != ".*" }
 		for i := range ms {
 			for j := i + 1; j < len(ms); j++ {
-				out = append(out, []MatcherSpec{ms[i], ms[j], inner})
+				if plain(ms[i]) && plain(ms[j]) {
+					out = append(out, []MatcherSpec{ms[i], ms[j], inner})
+				}
 			}
 		}
 	}
@@ -141,10 +144,23 @@ func metaValueConfigs() [][]labels.Labels {
 	}
 }
 
-func hasMetaValue(ls labels.Labels) bool {
-	meta := false
-	ls.Range(func(l labels.Label) { meta = meta || regexp.QuoteMeta(l.Value) != l.Value })
-	return meta
+// onlyMetaValuesRejected: at least one forwarded matcher rejects an external label of ls, and every one
+// that does is on a label whose value contains regexp metacharacters.
+func onlyMetaValuesRejected(ls labels.Labels, fwd []storepb.LabelMatcher) bool {
+	rejected, onlyMeta := false, true
+	for _, fm := range fwd {
+		m, err := storepb.MatcherToPromMatcher(fm)
+		if err != nil || !ls.Has(m.Name) {
+			continue
+		}
+		if v := ls.Get(m.Name); !m.Matches(v) {
+			rejected = true
+			if regexp.QuoteMeta(v) == v {
+				onlyMeta = false
+			}
+		}
+	}
+	return rejected && onlyMeta
 }
 
 // selGen: selector configuration x set of 1..2 stores x query matcher set. A store advertises 1..maxSets
@@ -502,8 +518,9 @@ func evalSel(r *vlib.R, c Case, pm []*labels.Matcher, sm []storepb.LabelMatcher)
 				fwd = fmtMatchers(req.Matchers)
 			}
 			sig := "selected-label-set-with-matching-data-pruned-by-forwarded-external-label-matchers"
-			if hasMetaValue(lf.lset) {
-				// narrower class: the pruned label set itself carries a value that is not a literal regexp
+			if req := st.client.lastReq.Load(); req != nil && onlyMetaValuesRejected(lf.lset, req.Matchers) {
+				// narrower class: the only forwarded matchers that reject this label set's external labels are
+				// on labels whose value is not a literal when read as a regular expression
 				sig = "selected-label-set-whose-external-label-value-has-regexp-metacharacters-pruned-by-forwarded-matchers"
 			}
 			r.Violation(sig,
